@@ -183,6 +183,29 @@ func (a *ad) Apply(op core.Op) (interface{}, error) {
 			}
 		}
 		return []int{}, nil
+	case "PopAllPush":
+		// PopAll with a loop body that pushes one more element when it receives the first one
+		p := core.ArgInt(op, 0)
+		ys := [][]int{}
+
+		first := true
+		body := func(it item) bool {
+			ys = append(ys, []int{it.H, it.P})
+			if first {
+				first = false
+				h := a.next
+				a.next++
+				a.pushItem(item{P: p, H: h})
+			}
+			return len(ys) < 1<<12
+		}
+		popAll(a, body)
+		if first { // the heap was empty: push the element now, so that handle numbering does not depend on it
+			h := a.next
+			a.next++
+			a.pushItem(item{P: p, H: h})
+		}
+		return ys, nil
 	case "RemoveAt":
 		i := core.ArgInt(op, 0)
 		switch a.flavour {
@@ -219,6 +242,19 @@ func collect(h *heapz.Heap[item]) []*heapz.Element[item] {
 	}
 	return es
 }
+
+func (a *ad) pushItem(it item) {
+	switch a.flavour {
+	case "heap":
+		a.el[it.H] = a.h.Push(it)
+	case "slice":
+		a.s.Push(it)
+	default:
+		heapz.Push[item](a.c, it)
+	}
+}
+
+func stdPop(a *ad) item { return heapz.Pop[item](a.c).(item) }
 
 func (a *ad) heapOK() bool {
 	v := a.vals()
@@ -346,6 +382,9 @@ func (g *gen) Next(rng *rand.Rand, step int) core.Op {
 		return rng.Intn(g.n + 1)
 	}
 	switch x := rng.Intn(20); {
+	case x < 1 && g.n < 70 && step > 3:
+		g.n++
+		return core.MkOp("PopAllPush", 1+rng.Intn(5))
 	case x < 8 && g.n < 70:
 		g.n++
 		return core.MkOp("Push", 1+rng.Intn(5))
